@@ -11,9 +11,9 @@ from .smt import S, I, SeqS
 from .vx import (V, NONE, RAISE, HList, HDict, St, OutOfReach, fresh, fresh_name,
                  vint, vbool, vstr, vopq, GHOST_SEQ_FIELDS, GHOST_LIST_FIELDS, CTX_NAMES)
 
-SPEC_BUILTINS = {"expr_value", "parses_as_int", "prefix", "appended", "keys_of", "implies", "is_str", "is_none", "seq_len", "logged"}
+SPEC_BUILTINS = {"memo_coherent", "sql_count", "sql_kind", "sql_text", "sql_params", "expr_value", "parses_as_int", "prefix", "appended", "keys_of", "implies", "is_str", "is_none", "seq_len", "logged"}
 BUILTIN_NAMES = {
-    "expr_value", "parses_as_int", "prefix", "appended", "keys_of", "implies", "is_str", "is_none", "seq_len", "logged",
+    "memo_coherent", "sql_count", "sql_kind", "sql_text", "sql_params", "expr_value", "parses_as_int", "prefix", "appended", "keys_of", "implies", "is_str", "is_none", "seq_len", "logged",
     "len", "int", "str", "max", "min", "isinstance", "callable", "tuple", "list", "map",
     "range", "reversed", "sorted", "any", "all", "ord", "chr", "set", "frozenset", "dict",
     "float", "abs", "round", "repr", "bool", "enumerate", "zip", "iter", "next", "print",
@@ -89,6 +89,8 @@ def init_ghost(x, st: St):
     st.ghost["expand_stack"] = V("sseq", z3.Const("expand_stack@entry", SeqS))
     for n in GHOST_LIST_FIELDS:
         st.ghost[n] = V("glist", (n + "@entry", []))
+    st.ghost["memo_valid"] = vbool(z3.Bool("memo_coherent@entry"))
+    st.ghost["sql_log"] = V("sqllog", ())
     # context facts (hold after start_page): the path is non-empty
     for cl in getattr(x.c, "ctx_facts", []):
         pass
@@ -816,6 +818,8 @@ def generic_element(x, st, v: V | None):
                 return fresh(o.elem, "el")
     if v.k == "matchiter":
         return make_match(x, st, v.t[0], v.t[1], None, "search")
+    if v.k == "sqlcursor":
+        return V("opq", fresh_name("row"))
     if v.k in ("sseq",):
         return fresh("str", "el")
     if v.k == "gref":
@@ -1092,8 +1096,55 @@ def _raise_fork(x, st, node, exc="AnyException", why=""):
     return (s2, RAISE(exc, why or loader.norm(node)[:60]))
 
 
+def _sql_kind(x, v):
+    """'write' | 'select' | 'other' | 'unknown' from the statement text"""
+    txt = None
+    c = x.const_of(v) if v is not None else None
+    if c is not None and isinstance(c[0], str):
+        txt = c[0]
+    elif v is not None and v.k == "str":
+        t = v.t
+        while z3.is_app(t) and t.decl().kind() == z3.Z3_OP_SEQ_CONCAT:
+            t = t.arg(0)
+        if z3.is_string_value(t):
+            txt = smt._z3str_to_py(t)
+    if txt is None:
+        return "unknown", None
+    w = txt.strip().split(None, 1)[0].upper() if txt.strip() else ""
+    if w in ("INSERT", "UPDATE", "DELETE", "REPLACE", "DROP", "ALTER"):
+        return "write", " ".join(txt.split())
+    if w == "SELECT":
+        return "select", " ".join(txt.split())
+    return "other", " ".join(txt.split())
+
+
+def call_db(x, st, method, pos, kw, node):
+    """sqlite3 connection methods: an external component with an assumed
+    contract -- statements are logged (text + parameters) in the ghost SQL log;
+    a writing statement makes the get_page memo incoherent"""
+    x.assumptions.add("sqlite3: execute() runs the given statement with the given parameters; SELECT does not "
+                      "modify the table; durability/atomicity as documented (assumed external contract)")
+    if method in ("execute", "executescript", "executemany"):
+        kind, txt = _sql_kind(x, pos[0] if pos else None)
+        params = pos[1] if len(pos) > 1 else V("tuple", ())
+        st.ghost["sql_log"] = V("sqllog", st.ghost.get("sql_log", V("sqllog", ())).t + ((kind, txt, pos[0] if pos else None, params),))
+        if kind in ("write", "unknown") or method != "execute":
+            if kind != "other" or method != "executescript":
+                st.ghost["memo_valid"] = vbool(False)
+        return [(st, V("sqlcursor", kind))]
+    if method == "commit":
+        st.ghost["sql_log"] = V("sqllog", st.ghost.get("sql_log", V("sqllog", ())).t + (("commit", "COMMIT", None, V("tuple", ())),))
+        return [(st, NONE)]
+    if method == "close":
+        st.ghost["sql_log"] = V("sqllog", st.ghost.get("sql_log", V("sqllog", ())).t + (("close", "CLOSE", None, V("tuple", ())),))
+        return [(st, NONE)]
+    return [(st, vopq("db." + method))]
+
+
 def call_opaque(x, st, f: V, pos, kw, node):
     src = loader.norm(node.func)
+    if isinstance(node.func, ast.Attribute) and loader.norm(node.func.value).endswith("db_conn"):
+        return call_db(x, st, node.func.attr, pos, kw, node)
     cbname = x.c.callbacks.get(src)
     if cbname is not None:
         return call_callback(x, st, src, cbname, pos, kw, node)
@@ -1276,6 +1327,8 @@ def apply_contract(x, st, c, fn, pos, kw, node, chain):
         cands = [(st.fork(isn), NONE), (st.fork(z3.Not(isn)), fresh("str", "ret"))]
     elif rk == "none":
         cands = [(st, NONE)]
+    elif rk == "colon_tuple":
+        cands = [(st, V("symtuple", {"name": fresh_name("prefixes"), "suffix": ":"}))]
     elif rk == "optpage":
         isn = z3.Bool(fresh_name("ret_none"))
         cands = [(st.fork(isn), NONE), (st.fork(z3.Not(isn)), V("opq", fresh_name("page")))]
@@ -1627,6 +1680,12 @@ def call_method(x, st, recv: V, name: str, pos, kw, node, chain):
             return [(st, vopq("values"))]
         if x.mode == "frame":
             return [(st, vopq("smap." + name))]
+    if k == "srec":
+        if name == "get":
+            r = srec_get(x, st, recv, pos[0], node)
+            if r is not None:
+                return [(st, r)]
+            return [(st, pos[1] if len(pos) > 1 else NONE)]
     if k == "cdict":
         if name == "get":
             c = x.const_of(pos[0])
@@ -1894,6 +1953,24 @@ def spec_builtin(x, st, name, pos, kw, node):
     """functions available in contract clauses only"""
     def g(v):
         return st.ghost[v.t] if v.k == "gref" else v
+    if name == "memo_coherent":
+        return [(st, st.ghost.get("memo_valid", vbool(True)))]
+    if name in ("sql_count", "sql_kind", "sql_text", "sql_params"):
+        log = st.ghost.get("sql_log", V("sqllog", ())).t
+        if name == "sql_count":
+            if pos:
+                c = x.const_of(pos[0])
+                return [(st, vint(sum(1 for e in log if e[0] == c[0])))]
+            return [(st, vint(len(log)))]
+        c = x.const_of(pos[0])
+        if c is None or not (-len(log) <= c[0] < len(log)):
+            return [(st, RAISE("ClauseError", "no such SQL log entry"))]
+        e = log[c[0]]
+        if name == "sql_kind":
+            return [(st, vstr(e[0]))]
+        if name == "sql_text":
+            return [(st, vstr(e[1] or "?"))]
+        return [(st, e[3])]
     if name == "parses_as_int":
         return [(st, vbool(z3.InRe(pos[0].t, smt.RE_INT_OK())))]
     if name == "expr_value":
